@@ -726,6 +726,17 @@ static void build(vf::Plan &plan, const vf::Opts &o)
                                       expect("after_first(\"xy\", case_insensitive)", s.after_first("xy", ST::case_insensitive), std::string(53, '\0') + "ab:cd:efgh");
                                       expect("after_last('Q') [absent]", s.after_last('Q').left(3), std::string(3, '\0'));
                                       expect("before_first('Q') [absent] right(4)", s.before_first('Q').right(4), "efgh");
+                                      // slices that are large themselves (256 MiB is where the converters stop; slices have no such limit)
+                                      auto big = [&](const char *call, const ST::string &got, size_t want_size, char first, char last) {
+                                          VF_COUNT("validated");
+                                          if (got.size() != want_size || got.c_str()[0] != first || got.c_str()[want_size - 1] != last || got.c_str()[want_size] != 0)
+                                              c.fail(strf("huge-subject:%s:value", call), strf("%s returned %zu bytes (expected %zu) or wrong bytes at the ends", call, got.size(), want_size));
+                                      };
+                                      const size_t Q = size_t(1) << 28;  // 256 MiB
+                                      big("right(2^28)", s.right(Q), Q, '\0', 'h');
+                                      big("right(2^28 + 1)", s.right(Q + 1), Q + 1, '\0', 'h');
+                                      big("substr(5, 2^28)", s.substr(5, Q), Q, ':', '\0');
+                                      big("left(2^28 + 6)", s.left(Q + 6), Q + 6, '\0', '\0');
                                   });
                                   if (!o.ok()) c.fail(strf("huge-subject:%s", vf::outkind_name(o.kind)), o.str());
                                   if (vf::live_huge()) c.fail("huge-subject:leak", strf("%zu large blocks still live", vf::live_huge()));
